@@ -71,7 +71,7 @@ func evalLabelCase(ctx context.Context, c lmCase) (direct, viaQuery, viaList boo
 func TestC14(t *testing.T) {
 	dir := outDir(t)
 	rep := newReport("C14", "exhaustive table: label maps over keys {a,b} x value alphabet (numeric, suffixed, spaced, negative, overflowing, non-numeric strings) x terms (7 operators x invert x key present/missing x value lists of length 0..2), "+
-		"evaluated by Labels.Matches, LabelQueries.Matches, inmem List and List through client->server translation; every row compared with the model; non-trivial = label present and operator not Exists; distinct by row")
+		"evaluated by Labels.Matches, LabelQueries.Matches, inmem List and List through client->server translation; every row compared with the model; plus random multi-term / multi-query selectors whose value at every site must equal the conjunction / disjunction of the single-term results; non-trivial = label present and operator not Exists; distinct by row")
 	ctx := context.Background()
 
 	var cases []lmCase
@@ -204,6 +204,107 @@ func TestC14(t *testing.T) {
 	}
 
 	flush()
+
+	// ---- multi-term queries (AND of terms, C14_query_and) and OR of queries, at every site: the expected value is
+	// the conjunction / disjunction of the single-term results, which the table above ties to the model ----
+	if os.Getenv("VERIF_REPLAY") == "" {
+		r := newRng(seed(), "C14multi")
+		vals := []string{"1", "10", "x", "2Ki", ""}
+
+		genTerm := func() lmCase {
+			c := lmCase{Key: pick(r, []string{"a", "b", "c"}), Op: r.intn(len(lmOps)), Inv: r.chance(1, 2)}
+			for range r.intn(3) {
+				c.Vals = append(c.Vals, pick(r, vals))
+			}
+
+			if c.Op != 0 && c.Op != 2 && len(c.Vals) == 0 {
+				c.Vals = []string{pick(r, vals)}
+			}
+
+			return c
+		}
+
+		for i := range tier(400, 6000) {
+			labels := map[string]string{}
+			for _, k := range []string{"a", "b"} {
+				if r.chance(2, 3) {
+					labels[k] = pick(r, vals)
+				}
+			}
+
+			res := newRes("n1", "T", "x", "p")
+			for k, v := range labels {
+				res.Metadata().Labels().Set(k, v)
+			}
+
+			var (
+				queries [][]lmCase
+				opts    []state.ListOption
+				lq      resource.LabelQueries
+				want    bool
+			)
+
+			for range 1 + r.intn(2) {
+				var (
+					q     []lmCase
+					terms []resource.LabelTerm
+				)
+
+				all := true
+
+				for range 1 + r.intn(3) {
+					tc := genTerm()
+					q = append(q, tc)
+					terms = append(terms, tc.term())
+					all = all && res.Metadata().Labels().Matches(tc.term())
+				}
+
+				want = want || all
+				queries = append(queries, q)
+				opts = append(opts, state.WithLabelQuery(resource.RawLabelQuery(resource.LabelQuery{Terms: terms})))
+				lq = append(lq, resource.LabelQuery{Terms: terms})
+			}
+
+			replay := map[string]any{"multi": queries, "labels": labels}
+
+			st := namespaced.NewState(inmem.Build)
+			if err := st.Create(ctx, res); err != nil {
+				t.Fatal(err)
+			}
+
+			kind := resource.NewMetadata("n1", "T", "", resource.VersionUndefined)
+
+			l, err := st.List(ctx, kind, opts...)
+			if err != nil {
+				t.Fatal(err)
+			}
+
+			ad, _ := newRemote(st)
+			rl, rerr := ad.List(ctx, kind, opts...)
+
+			for _, p := range takeServerPanics() {
+				rep.violateKey(i, "server-panic:ConvertLabelQuery", "gRPC server handler panicked on a label query: "+p, replay)
+			}
+
+			rep.count(fmt.Sprint("multi", i), len(queries) > 1 || len(queries[0]) > 1)
+			rep.hit("multi_term")
+
+			if got := lq.Matches(*res.Metadata().Labels()); got != want {
+				rep.violateKey(i, "multi-term:LabelQueries.Matches", fmt.Sprintf("multi-term: LabelQueries.Matches gives %v, the terms give %v", got, want), replay)
+			}
+
+			if got := len(l.Items) == 1; got != want {
+				rep.violateKey(i, "multi-term:List", fmt.Sprintf("multi-term: inmem List gives %v, the terms give %v", got, want), replay)
+			}
+
+			if rerr != nil {
+				rep.violateKey(i, "multi-term:remote-error", "multi-term query accepted directly is rejected over gRPC: "+rerr.Error(), replay)
+			} else if got := len(rl.Items) == 1; got != want {
+				rep.violateKey(i, "multi-term:remote-differs", fmt.Sprintf("multi-term: List over gRPC gives %v, the terms give %v", got, want), replay)
+			}
+		}
+	}
+
 	rep.CorrIsSpec = true
 	rep.Assumptions = append(rep.Assumptions, "ASCII label values (strings.ToLower/TrimSpace on non-ASCII runes are outside the byte model)", "regexp engine for ID queries is trusted (ID queries are an opaque predicate in the model)")
 	rep.write(t, dir)
